@@ -44,6 +44,8 @@ type scenario struct {
 	Fragmented bool `json:"hello_in_two_records,omitempty"`
 	// PriorDeadline: the caller had set its own deadline (t=100) on the transport before calling NewConn
 	PriorDeadline bool `json:"caller_deadline_before_newconn,omitempty"`
+	// DeadlineErr: the transport's SetDeadline takes effect and then reports an error
+	DeadlineErr bool `json:"set_deadline_reports_error,omitempty"`
 }
 
 const priorDeadline = 100 * unit
@@ -109,6 +111,7 @@ func run(sc scenario, choose vs.Chooser, traceOn bool) (*observation, *vs.Sched,
 	ob := &observation{helloLen: len(helloRec)}
 	t := vnet.New()
 	t.Blocked = sc.BlockedWrites
+	t.DeadlineErr = sc.DeadlineErr
 	s := vs.RunOpt(choose, 5000, traceOn, func() {
 		var ctx context.Context
 		var cancel context.CancelFunc
@@ -354,6 +357,15 @@ func scenarios() []scenario {
 	for _, h := range []string{"buffered", "never", "first-record-only", "bad-record"} {
 		for _, blocked := range []bool{false, true} {
 			out = append(out, scenario{Hello: h, Cancel: "before-call", Keys: true, BlockedWrites: blocked})
+		}
+	}
+	// a transport whose SetDeadline takes effect but reports an error: what the watcher did to the connection still counts
+	for _, h := range []string{"buffered", "late", "two-records", "never"} {
+		for _, c := range []string{"t0", "t1", "before-call", "after-return", "deadline2"} {
+			if h == "never" && c == "after-return" {
+				continue
+			}
+			out = append(out, scenario{Hello: h, Cancel: c, Keys: true, DeadlineErr: true})
 		}
 	}
 	// a first record that is refused outright, with a client that reads the alert or never does
